@@ -25,7 +25,7 @@ ANCHORS = [("lib/debian/deb822.py",
              "split_gpg_and_payload", "gpg_stripped_paragraph", "validate_input", "__setitem__",
              "_gpg_multivalued", "_AutoDecoder"]),
            ("lib/debian/_util.py", ["_CaseInsensitiveString", "OrderedSet"])]
-BUDGET = {"quick": 2400, "thorough": 22000}
+BUDGET = {"quick": 2400, "thorough": 16000}
 RULE = ("documents of 1-4 paragraphs of 1-5 fields; policy-valid names (mixed case, punctuation), pairwise distinct "
         "ignoring case; first lines from a pool (empty, leading ':' '#' '-', inner colon, leading/trailing blanks and "
         "tabs, NBSP, UTF-8, text that looks like a PGP armour line) or random over a 12-symbol alphabet; 0-3 "
